@@ -403,3 +403,10 @@ def run(ctx):
     import ext_shutdown
     ext_shutdown.run(ctx)
     phase("serverlife")
+
+    # removal and termination of an object while its environment misbehaves: write faults of subscribers,
+    # a full mailbox with parked senders, subscriber churn before the removal, a registration racing it
+    # (TermFault.tla, design-notes/EXT-termfault.md)
+    import ext_termfault
+    ext_termfault.run(ctx)
+    phase("termfault")
